@@ -412,7 +412,18 @@ pub fn gen_calls(r: &mut Rng, n: usize, allow_img: bool) -> Vec<Call> {
                     imgs += 1;
                     let (w, h) = (r.range(1, 4) as u32, r.range(1, 4) as u32);
                     let data = r.bytes((w * h * 3) as usize);
-                    v.push(Call::Img { name: format!("Im{imgs}"), w, h, data, pos: [coord(r), coord(r), r.range(1, 300_000) as i64, r.range(1, 300_000) as i64] });
+                    // image names go through an entry point without validation: since fix_name_escape any name is
+                    // written #XX-escaped, so white space, delimiters, '#' and non-ASCII must leave the file valid
+                    let name = match r.below(12) {
+                        0 => format!("My Image {imgs}"),
+                        1 => format!("A#20-{imgs}"),
+                        2 => format!("Im{{{imgs}}}"),
+                        3 => format!("a/b ({imgs})"),
+                        4 => format!("\u{e9}\u{4e2d}{imgs}"),
+                        5 => format!("x%y<{imgs}>[]#"),
+                        _ => format!("Im{imgs}"),
+                    };
+                    v.push(Call::Img { name, w, h, data, pos: [coord(r), coord(r), r.range(1, 300_000) as i64, r.range(1, 300_000) as i64] });
                 }
             }
         }
